@@ -229,6 +229,20 @@ CLAIMED['C11'] = dict(
          '120 incoming packets.',
     design='§6 C11')
 
+CLAIMED['C12'] = dict(
+    text='Decided: the mechanism the property rests on, as ownership contracts with a ghost lock depth on the real source - '
+         'every call site of _write_packet/_pop_packet/Packet.write(socket) and every mutator of the outgoing queue in the whole '
+         'package is found by a closed-world AST scan and must either be one of the seven sites that carry a discharged lock '
+         'obligation (write_packet forced: lock held at _write_packet; disconnect flush; _run write batch; ...) or lie lexically '
+         'inside "with ..._write_lock"; one Packet.write = prefix + body in exactly two sends (frame.contiguous); queued writes '
+         'append at the tail and the only remover takes the head; non-immediate disconnect pops until the queue is empty '
+         '(loop invariant + variant, FIFO order) before shutdown/close, immediate disconnect pops and sends nothing.',
+    note='NOT decided: the schedule quantifier. The family has no thread semantics; mutual exclusion of RLock and atomicity of '
+         'deque operations are ASSUMED, and under them the obligations give contiguous frames and per-thread order. Residual '
+         'not covered: the cipher-wrapper swap in the login reaction, unlocked deque.append racing the final flush. Bounded: a '
+         'real-thread stress run (1/2/4 writers + a draining thread), which is a sample of schedules, not an exploration.',
+    design='§6 C12')
+
 PLANNED = {
     'C01': 'check not built yet (DESIGN §6 C01): frame contracts on Packet.write/_write_buffer/read_packet',
     'C02': 'check not built yet (DESIGN §6 C02)',
